@@ -100,8 +100,22 @@ inductive HEv where
   | timer              -- `<-time.After(RetransmitInterval)` taken
   | takeErrc           -- `err, ok := <-errc` taken
   | cea (k : CEAKind)  -- the reader dispatches a CEA to handleCEA
+  | leftover (k : CEAKind)  -- ... one that was still in the read buffer when the handshake closed the transport
   | peerClose          -- the peer disconnects / the transport fails: the reader loop ends
 deriving Repr, BEq, DecidableEq
+
+/-- the body of `handleCEA` for a CEA of kind `k` -/
+def HS.handleCEA (s : HS) (k : CEAKind) : HS :=
+  if s.onceOnly ∧ s.fired then s       -- duplicates and late answers are ignored
+  else
+    match k with
+    | .failing =>
+      if s.errcClosed then { s with fired := true, panics := s.panics + 1, readerGone := true }  -- send on closed channel
+      else if s.buf.length < s.cap then { s with fired := true, buf := s.buf ++ [true] }
+      else { s with fired := true, pending := true }
+    | .success =>
+      if s.errcClosed then { s with fired := true, hasMeta := true, panics := s.panics + 1, readerGone := true }  -- close of closed channel
+      else { s with fired := true, hasMeta := true, errcClosed := true }
 
 def HS.step (s : HS) : HEv → Option HS
   | .writeOk =>
@@ -130,16 +144,11 @@ def HS.step (s : HS) : HEv → Option HS
     else none
   | .cea k =>
     if s.readerGone ∨ s.pending then none      -- no reader to dispatch it / reader stuck
-    else if s.onceOnly ∧ s.fired then some s       -- duplicates and late answers are ignored
-    else
-      match k with
-      | .failing =>
-        if s.errcClosed then some { s with fired := true, panics := s.panics + 1, readerGone := true }  -- send on closed channel
-        else if s.buf.length < s.cap then some { s with fired := true, buf := s.buf ++ [true] }
-        else some { s with fired := true, pending := true }
-      | .success =>
-        if s.errcClosed then some { s with fired := true, hasMeta := true, panics := s.panics + 1, readerGone := true }  -- close of closed channel
-        else some { s with fired := true, hasMeta := true, errcClosed := true }
+    else some (s.handleCEA k)
+  | .leftover k =>
+    -- the transport was closed by the handshake, but the reader still dispatches what its read
+    -- buffer held at that moment (a CEA that came in the same segment as an earlier message)
+    if s.libClosed ∧ ¬ s.pending then some (s.handleCEA k) else none
   | .peerClose =>
     if s.readerGone then none else some { s with readerGone := true }
 
